@@ -191,6 +191,9 @@ fn string_strategy() -> impl Strategy<Value = String> {
         2 => "[ -~\\n\\t]{0,24}",
         1 => proptest::collection::vec(any::<char>(), 0..8).prop_map(|v| v.into_iter().collect::<String>()),
         1 => "[a-z \\n]{0,40}",
+        // medium strings dense in characters that are escaped with 6 characters each: the quoted
+        // form crosses the 1024-character implicit key limit long before the string does
+        1 => (100usize..300, proptest::sample::select(vec!["\u{1}", "\u{2}a", "\u{1f}\u{10}", "\u{0}", "\u{e}x\u{f}", "\"\u{3}"])).prop_map(|(n, u)| u.repeat(n / u.len() + 1)),
         // long strings: cross the 1024-character implicit key limit
         1 => (1000usize..2500, proptest::sample::select(vec!["a", "ab ", "é", "x\"", "0"])).prop_map(|(n, u)| u.repeat(n / u.len() + 1)),
         1 => proptest::sample::select(vec!["---", "...", "--- a", "... ", "- a", "? a", ": a", "a: b", "a #b", "#a", " a", "a ", "\u{feff}a", "a\u{85}b", "a\u{2028}b", "\u{7f}", "\u{0}", "\r", "a\rb", "\r\n", "é", "😀"]).prop_map(|s| s.to_string()),
